@@ -24,14 +24,23 @@ CONFIGS_THOROUGH = CONFIGS_QUICK + [
 ]
 
 
-def programs(tier, kinds=('example', 'ok', 'verif')):
+GEN_COUNT = {'quick': 36, 'thorough': 400}
+
+
+def programs(tier, kinds=('example', 'ok', 'verif', 'gen')):
     out = []
     for p in nm.corpus_files(kinds):
         out.append((os.path.relpath(p, chk.REPO) if p.startswith(chk.REPO) else os.path.relpath(p, chk.VERIF), nm.read(p)))
+    if 'gen' in kinds:
+        # generated family (engines/gen_l3): seeded by VERIF_SEED, rejected programs are counted and skipped by work()
+        from . import gen_l3
+        n = int(os.environ.get('VERIF_GEN_COUNT') or GEN_COUNT[tier])
+        for i, src in enumerate(gen_l3.programs(chk.seed(), n)):
+            out.append(('gen/l3-%d-%03d' % (chk.seed(), i), src))
     return out
 
 
-def jobs_for(tier, aspects, only_eof=False, kinds=('example', 'ok', 'verif')):
+def jobs_for(tier, aspects, only_eof=False, kinds=('example', 'ok', 'verif', 'gen')):
     cfgs = CONFIGS_QUICK if tier == 'quick' else CONFIGS_THOROUGH
     js = []
     for label, src in programs(tier, kinds):
